@@ -129,7 +129,7 @@ impl Prop for C02 {
                 Stage {
                     name: "trees".into(),
                     len: n,
-                    chunk: (n / 64).max(500),
+                    chunk: (n / 20).max(500),
                     timeout: Duration::from_secs(900),
                     what: "model ASTs printed with minimal parentheses (and once fully parenthesised)".into(),
                 },
